@@ -37,6 +37,13 @@ type childSpec struct {
 	WorldDir string          `json:"worldDir"`
 	Sweep    bool            `json:"sweep"` // evaluate every curve under several sensor states once booted (C11)
 	Env      []string        `json:"env"`   // extra environment of the child process (e.g. DISPLAY=:77)
+	// CfgLayout: how the configuration file is reached ("" = <world>/fan2go.yaml; "symlink" = through a symbolic
+	// link; "dotdot" = <world>/etc/current/../fan2go.yaml where current is a symbolic link to releases/v1, so
+	// that the file loaded is etc/releases/fan2go.yaml while a root-controlled decoy sits at etc/fan2go.yaml)
+	CfgLayout string `json:"cfgLayout"`
+	// CfgAttr: owner, group and mode given to the configuration file that is actually loaded (mode 0 = leave)
+	CfgUID, CfgGID int
+	CfgMode        uint32
 }
 
 type journalLine struct {
@@ -107,7 +114,24 @@ func TestDaemonChild(t *testing.T) {
 		}
 		doc = strings.ReplaceAll(doc, "@W@", w.Dir)
 		debug.SetMaxStack(64 << 20)
-		if err := os.WriteFile(cfgPath, []byte(doc), 0644); err != nil {
+		loaded := cfgPath
+		switch spec.CfgLayout {
+		case "symlink":
+			loaded = filepath.Join(w.Dir, "real-fan2go.yaml")
+			_ = os.Symlink(loaded, cfgPath)
+		case "dotdot":
+			etc := filepath.Join(w.Dir, "etc")
+			_ = os.MkdirAll(filepath.Join(etc, "releases", "v1"), 0755)
+			_ = os.Symlink(filepath.Join(etc, "releases", "v1"), filepath.Join(etc, "current"))
+			loaded = filepath.Join(etc, "releases", "fan2go.yaml")
+			_ = os.WriteFile(filepath.Join(etc, "fan2go.yaml"), []byte(doc), 0644) // the root-controlled decoy
+			cfgPath = etc + "/current/../fan2go.yaml"                              // not filepath.Join: it would collapse the ".." lexically
+		}
+		if err := os.WriteFile(loaded, []byte(doc), 0644); err == nil && spec.CfgMode != 0 {
+			_ = os.Chown(loaded, spec.CfgUID, spec.CfgGID)
+			_ = os.Chmod(loaded, os.FileMode(spec.CfgMode))
+		}
+		if _, err := os.Stat(loaded); err != nil {
 			write(journalLine{Note: "harness: " + err.Error()})
 			os.Exit(12)
 		}
